@@ -363,6 +363,69 @@ def textfile_sink_sample(ctx, n):
         snk.destroy()
 
 
+def touchy_key_cases(ctx, cases=None):
+    """unique() runs user code of its own: the keys' __eq__ (hashable=False: list history) or __hash__ (hashable=True).  A key whose
+    comparison / hash raises is a failing user function of that node: emit raises, the element goes nowhere, the history is what it was
+    (later elements are filtered as if the failing one had not been offered), its callback does not fire."""
+    from streamz import Stream, RefCounter
+    from .. import graphlib
+
+    class Key:
+        def __init__(self, v, touchy=False):
+            self.v, self.touchy = v, touchy
+
+        def __eq__(self, other):
+            if self.touchy or getattr(other, "touchy", False):
+                raise ValueError("keys cannot be compared")
+            return isinstance(other, Key) and self.v == other.v
+
+        def __hash__(self):
+            if self.touchy:
+                raise ValueError("key cannot be hashed")
+            return hash(self.v)
+
+        def __repr__(self):
+            return "K%s%d" % ("!" if self.touchy else "", self.v)
+    if cases is None:
+        cases = [{"touchy_key": True, "hashable": h, "maxsize": m, "seq": seq}
+                 for h in (False, True) for m in (None, 1, 2)
+                 for seq in ([1, 2, -3, 1, 2, 4], [1, -3, 1, 1, 5], [1, 2, 3, -9, 2, 3, 1])]
+    for case in cases:
+        src = Stream()
+        got, fired = [], []
+        node = src.unique(hashable=case["hashable"], maxsize=case["maxsize"])
+        node.sink(lambda k: got.append(k.v))
+        # reference: the same real node class fed only the elements that did not fail
+        ref_src = Stream()
+        ref_got = []
+        ref_src.unique(hashable=case["hashable"], maxsize=case["maxsize"]).sink(lambda k: ref_got.append(k.v))
+        problems = []
+        for i, v in enumerate(case["seq"]):
+            k = Key(abs(v), touchy=v < 0)
+            rc = RefCounter(cb=lambda i=i: fired.append(i), loop=graphlib.ImmediateLoop())
+            try:
+                src.emit(k, metadata=[{"ref": rc}])
+                raised = False
+            except ValueError:
+                raised = True
+            if v < 0:
+                if not raised:
+                    problems.append(("exception-swallowed", "emit #%d (key %r, whose comparison/hash raises) returned normally" % (i, k)))
+                if i in fired:
+                    problems.append(("callback-after-failure", "the callback of failing emit #%d fired" % i))
+            else:
+                if raised:
+                    problems.append(("spurious-exception", "emit #%d (key %r) raised" % (i, k)))
+                ref_src.emit(Key(v))
+        if not problems and got != ref_got:
+            problems.append(("state-changed-by-failure", "delivered %r; a fresh unique fed only the non-failing elements delivers %r" % (got, ref_got)))
+        ctx.case(case, nontrivial=True)
+        ctx.count("touchy-key:hashable=%s" % case["hashable"])
+        for sig, what in problems[:1]:
+            ctx.failure(sig + ":unique-key", "unique(hashable=%s, maxsize=%r), keys %r (negative: comparison/hash raises): %s"
+                        % (case["hashable"], case["maxsize"], case["seq"], what), case)
+
+
 def flush(ctx, batch):
     """Model comparison + oracles for a chunk of cases (chunked to keep memory bounded in the thorough tier)."""
     from .. import common
@@ -383,6 +446,7 @@ def run(ctx):
     threaded_sample(ctx, 18 if not ctx.thorough() else 90)
     dataframe_fault_sample(ctx, 44 if not ctx.thorough() else 660)
     textfile_sink_sample(ctx, 40 if not ctx.thorough() else 600)
+    touchy_key_cases(ctx)
     rng = ctx.rng
     n = 300 if not ctx.thorough() else 10000
     batch = []
@@ -423,6 +487,10 @@ def replay(ctx, data):
     if case.get("threaded"):
         threaded_sample(ctx, 18)
         ctx.coverage["rule"] = "replay: threaded sample"
+        return
+    if case.get("touchy_key"):
+        touchy_key_cases(ctx, [case])
+        ctx.coverage["rule"] = "replay of one recorded case"
         return
     if case.get("textfile_sink"):
         textfile_sink_sample(ctx, 40)
